@@ -3,6 +3,7 @@
 package masswallet
 
 import (
+	"github.com/massnetorg/mass-core/consensus/forks"
 	"github.com/massnetorg/mass-core/txscript"
 	"github.com/massnetorg/mass-core/wire"
 	"massnet.org/mass-wallet/config"
@@ -16,10 +17,11 @@ const c19WID = "ac10aaaaaaaaaaaaaaaaaaaaaaaaaaaaaaaaaaaaaa"
 
 // Contract stubs for the two previous-transaction look-ups (cuts; the real functions read the transaction
 // store and the node's block files). Contracts, read off the callees:
-//   existsMsgTx success  => a transaction that HAS an output at the requested index (TxStore.ExistsTx only
-//                           succeeds through a credit of that index) and a non-nil block;
-//   existsUnminedTx success => the pending transaction of that hash - no guarantee on the index, no block;
-//   otherwise txmgr.ErrNotFound.
+//
+//	existsMsgTx success  => a transaction that HAS an output at the requested index (TxStore.ExistsTx only
+//	                        succeeds through a credit of that index) and a non-nil block;
+//	existsUnminedTx success => the pending transaction of that hash - no guarantee on the index, no block;
+//	otherwise txmgr.ErrNotFound.
 var c19Prev struct {
 	mode  int // 0 mined, 1 pending only, 2 unknown
 	tx    *wire.MsgTx
@@ -30,6 +32,12 @@ func (w *WalletManager) existsMsgTx(out *wire.OutPoint) (*wire.MsgTx, *txmgr.Blo
 	if !rt.CutActive("existsMsgTx") {
 		return w.existsMsgTx__real(out)
 	}
+	if c03Prevs != nil {
+		if p := c03Prevs[out.Hash[0]]; p != nil && p.mode == 0 {
+			return p.tx, p.block, nil
+		}
+		return nil, nil, txmgr.ErrNotFound
+	}
 	if c19Prev.mode == 0 {
 		return c19Prev.tx, c19Prev.block, nil
 	}
@@ -39,6 +47,12 @@ func (w *WalletManager) existsMsgTx(out *wire.OutPoint) (*wire.MsgTx, *txmgr.Blo
 func (w *WalletManager) existsUnminedTx(hash *wire.Hash) (*wire.MsgTx, error) {
 	if !rt.CutActive("existsUnminedTx") {
 		return w.existsUnminedTx__real(hash)
+	}
+	if c03Prevs != nil {
+		if p := c03Prevs[hash[0]]; p != nil && p.mode == 1 {
+			return p.tx, nil
+		}
+		return nil, txmgr.ErrNotFound
 	}
 	if c19Prev.mode == 1 {
 		return c19Prev.tx, nil
@@ -162,3 +176,103 @@ func VerifC19SignPendingInput() {
 	rt.Assert(len(tx.TxIn) == 1 && len(tx.TxIn[0].Witness) == 0 && tx.TxIn[0].PreviousOutPoint.Index == vout && len(tx.TxOut) == 0, "a-refused-signing-alters-nothing")
 	rt.Reach("end")
 }
+
+// ---- call-site cut "scriptEngine": signWitnessTx's calls of txscript.NewEngine and Engine.Execute go through these
+// wrappers (cuts.json "callsites": the call text is rewritten in the overlay copy of tx.go). With the cut off they are
+// the real calls. With it on, the flags each input is verified under are recorded and the engine accepts (contract:
+// every input is satisfied) - symbolically and natively alike, so that what is decided is which rules signWitnessTx
+// verifies an input under, not what the script VM does with them.
+var c03Engine struct {
+	idx   []int
+	flags []txscript.ScriptFlags
+}
+
+func verifNewEngine(scriptPubKey []byte, tx *wire.MsgTx, txIdx int, flags txscript.ScriptFlags,
+	sigCache *txscript.SigCache, hashCache *txscript.TxSigHashes, inputAmount int64) (*txscript.Engine, error) {
+	if rt.CutActive("scriptEngine") {
+		c03Engine.idx = append(c03Engine.idx, txIdx)
+		c03Engine.flags = append(c03Engine.flags, flags)
+		return nil, nil
+	}
+	return txscript.NewEngine(scriptPubKey, tx, txIdx, flags, sigCache, hashCache, inputAmount)
+}
+
+func verifExecute(vm *txscript.Engine) error {
+	if rt.CutActive("scriptEngine") {
+		return nil
+	}
+	return vm.Execute()
+}
+
+type c03Prev struct {
+	mode  int // 0 mined, 1 pending only
+	tx    *wire.MsgTx
+	block *txmgr.BlockMeta
+}
+
+// c03Prevs, when set, replaces c19Prev in the look-up cuts: previous transactions by the first byte of their id.
+var c03Prevs map[byte]*c03Prev
+
+// VerifC03ScriptFlags: every input of a multi-input transaction is verified under the rules of the block that will
+// hold it, judged by *its own* previous transaction: the MASSIP0002 rules exactly when that transaction is pending or
+// was mined at a height where the warm-up applies. Three inputs, each spending an output of one of two previous
+// transactions (A, B) in an arbitrary pattern, A and B independently mined at an arbitrary height or pending.
+func VerifC03ScriptFlags() {
+	ks := keystore.VerifNewManager(c19WID)
+	w := &WalletManager{ksmgr: ks, chainParams: config.ChainParams}
+	c03Prevs = map[byte]*c03Prev{}
+	for _, id := range []byte{0xaa, 0xbb} {
+		p := &c03Prev{tx: wire.NewMsgTx(), mode: rt.NondetLen(0, 1)}
+		for i := 0; i < 3; i++ {
+			p.tx.AddTxOut(wire.NewTxOut(1000, []byte{txscript.OP_0, txscript.OP_DATA_32}))
+		}
+		if p.mode == 0 {
+			p.block = &txmgr.BlockMeta{Height: rt.NondetU64()}
+		}
+		c03Prevs[id] = p
+		if id == 0xaa {
+			c03Saved[0] = p
+		} else {
+			c03Saved[1] = p
+		}
+	}
+	c19Flags.found, c19Flags.spent = true, false
+	c03Engine.idx, c03Engine.flags = nil, nil
+	tx := wire.NewMsgTx()
+	var ids [3]byte
+	for i := range ids {
+		ids[i] = 0xaa
+		if rt.NondetBool() {
+			ids[i] = 0xbb
+		}
+		var h wire.Hash
+		h[0] = ids[i]
+		tx.AddTxIn(wire.NewTxIn(wire.NewOutPoint(&h, uint32(i)), nil))
+	}
+	// SigHashSingle without outputs: the signature step is skipped for every input (no key material needed)
+	err := w.signWitnessTx([]byte("passphrase"), tx, txscript.SigHashSingle, config.ChainParams)
+	c03Prevs = nil
+	rt.Assert(err == nil, "accepted-by-the-engine-means-signed")
+	rt.Assert(len(c03Engine.idx) == 3, "every-input-is-verified")
+	for i := 0; i < len(c03Engine.idx) && i < 3; i++ {
+		rt.Assert(c03Engine.idx[i] == i, "inputs-verified-in-order")
+	}
+	for i := 0; i < 3 && i < len(c03Engine.flags); i++ {
+		want := txscript.StandardVerifyFlags
+		var prev *c03Prev
+		if ids[i] == 0xaa {
+			prev = c03PrevOf(0)
+		} else {
+			prev = c03PrevOf(1)
+		}
+		if prev.mode == 1 || forks.EnforceMASSIP0002WarmUp(prev.block.Height) {
+			want |= txscript.ScriptMASSip2
+		}
+		rt.Assert(c03Engine.flags[i] == want, "input-verified-under-the-rules-of-its-own-previous-transaction")
+	}
+	rt.Reach("end")
+}
+
+var c03Saved [2]*c03Prev
+
+func c03PrevOf(i int) *c03Prev { return c03Saved[i] }
